@@ -1,4 +1,4 @@
-import SqlgrepModel.Lemmas.AggFollowSim
+import SqlgrepModel.Lemmas.AggFindings
 /-
 C11 — incremental (tail -f) results equal a batch run over the same prefix.
 
@@ -158,6 +158,45 @@ theorem follow_eq_batch_prefix_via_spec {O : Oracles} {q : AggStmt} (hwf : StmtW
   rw [hsb]
   exact follow_table_eq_batch hwf hlim pre env hfollow hupd hres hsb hspec hclass
 
+/-! ### negation witnesses of the two open findings of this property -/
+
+/-- **D60** (why "exact keys" cannot be dropped from `follow_eq_batch_prefix`): GROUP BY over the REAL keys `0.0` and
+`-0.0` (one group: they are equal in the value order). Rows (0.0, NULL, 1), (-0.0, 1, NULL), statement
+`SELECT r, COUNT(v), PERCENTILE(w, p) … GROUP BY r`, any p: fed incrementally, the table after the second row shows the
+key `0.0` (the refresh after row one published the percentile and thereby created the group's entry under `0.0`); a batch
+run over both rows shows `-0.0` (the entry is created by COUNT(v) of row two). The harness witness D60 shows the same on
+the implementation. -/
+theorem d60_follow_and_batch_show_different_key_representatives (p : Nat) :
+    ∃ sf sf1 sf2 out sb outb,
+      followRun {} (d60Stmt p) [rowRVW 0 .null (.int 1)] {} = .ok sf ∧
+      aggUpdateRow {} (d60Stmt p) sf (rowRVW (2^63) (.int 1) .null) = .ok (sf1, true) ∧
+      aggResult {} (d60Stmt p) sf1 = .ok (sf2, out) ∧
+      aggRun {} (d60Stmt p) [rowRVW 0 .null (.int 1), rowRVW (2^63) (.int 1) .null] {} = .ok sb ∧
+      finalResult {} (d60Stmt p) { agg := sb } = .ok outb ∧
+      out.rows = [[.real 0, .int 1, .int 1]] ∧ outb.rows = [[.real (2^63), .int 1, .int 1]] := by
+  refine ⟨{ aggs := (st1 p).aggs, vals := [([.real 0], [(2, .int 1)])] }, st2f p, st2f p,
+    { columns := ["r", "count1", "percentile2"], rows := [[.real 0, .int 1, .int 1]] }, st2b p,
+    { columns := ["r", "count1", "percentile2"], rows := [[.real (2^63), .int 1, .int 1]] }, ?_, rfl, ?_, rfl, ?_, rfl, rfl⟩
+  · have h1 : aggUpdateRow {} (d60Stmt p) {} (rowRVW 0 .null (.int 1)) = .ok (st1 p, true) := rfl
+    simp only [followRun, followStep, h1, Outcome.bind, if_true]
+    rw [aggResult_eq, pub_1]
+    rfl
+  · rw [aggResult_eq, pub_f]
+    rfl
+  · simp only [finalResult, bind, Outcome.bind]
+    rw [aggResult_eq, pub_b]
+    rfl
+
+/-- **D61**: follow mode, aggregate over a JOIN. `SELECT COUNT(*) FROM a INNER JOIN b ON a.k = b.k`, the joined file has two
+rows with key 1, one input line with key 1: the refresh for that line shows the rows `1` and `2` (one full table per join
+partner, concatenated), a batch run over the same line shows the one row `2`. The harness witness D61 shows the same on the
+implementation. -/
+theorem d61_follow_join_shows_a_table_per_partner :
+    (∃ es lo, executeLine {} d61Query d61Index true {} d61Line = .ok (es, lo) ∧
+      lo.result = some { columns := ["count0"], rows := [[.int 1], [.int 2]] }) ∧
+    (∃ es lo, executeLine {} d61Query d61Index false {} d61Line = .ok (es, lo) ∧
+      finalResult {} exCountQ es = .ok { columns := ["count0"], rows := [[.int 2]] }) :=
+  ⟨⟨_, _, rfl, rfl⟩, ⟨_, _, rfl, rfl⟩⟩
 /-- `SELECT COUNT(*) FROM t` -/
 def exCount : AggStmt :=
   { items := [{ name := "count0", kind := .count none false, transform := none }], filter := none, groupBy := none,
